@@ -14,17 +14,19 @@ from vt.main import decide
 import peggen
 import pegdump
 
-IMPORTS = "From TxV Require Import Core.Base Core.Show Model.PegSyntax Model.Peg Model.PegShow.\nOpen Scope string_scope."
+IMPORTS = "From TxV Require Import Core.Base Core.Show Model.PegSyntax Model.Peg Model.PegShow Proofs.PegProofs.\nOpen Scope string_scope."
 FUEL = 120
 
 
 # ---------------------------------------------------------------- classifier (mirror of Coq ctx_constant)
 def ctx_constant(dump):
-    """Mirror of PegProofs.ctx_constant: no node sets ws/skipws, no eolterm, no comment model."""
+    """Mirror of PegProofs.ctx_constant (the class of the proved theorem; compared with Coq's own
+    evaluation on every generated grammar): no node sets ws/skipws, no eolterm, no unordered group,
+    no comment model."""
     if dump["comments"] is not None:
         return False
     for n in dump["nodes"]:
-        if n["ws"] is not None or n["skipws"] is not None or n["eolterm"]:
+        if n["ws"] is not None or n["skipws"] is not None or n["eolterm"] or n["kind"] == "KUnord":
             return False
     return True
 
@@ -54,6 +56,13 @@ def context_dependent(dump):
     return False
 
 
+def memoizable_comment_model(dump):
+    """Second finding class: the Comment rule's expression is not a single terminal, so comment
+    parsing is itself memoized (and interacts with Arpeggio's comment_positions table)."""
+    c = dump["comments"]
+    return c is not None and dump["nodes"][c]["kind"] not in ("KStr", "KRegex", "KEOF")
+
+
 # ---------------------------------------------------------------- cases
 CORPUS = [
     {"grammar": "Model: a=A | b=B; A[noskipws]: x=X 'q'; B: x=X 'r'; X: 'x' 'y';\n", "opts": {},
@@ -64,8 +73,14 @@ CORPUS = [
      "inputs": ["a b c", "a b d", "a k b c a b c", "a d", "a b k z"], "tag": "corpus-pred"},
     {"grammar": "Model: A | B; A: x=X 'q'; B: x=X 'r'; X: 'x' 'y';\nComment: /\\/\\/.*?$/;\n", "opts": {},
      "inputs": ["x // c\n y r", "x y // c\n q", "x y s"], "tag": "corpus-comment"},
-    {"grammar": "Model: ('a' X ';')*[eolterm] | 'a' X ';' 'z'; X: 'x' 'y';\n", "opts": {},
-     "inputs": ["a x\ny ; z", "a x y ;", "a x\n y ; a x y ;"], "tag": "corpus-eolterm"},
+    {"grammar": "Model: ('a' X 'q')*[eolterm] 'a' X 'r'; X: 'x' 'y';\n", "opts": {},
+     "inputs": ["a x\ny r", "a x y q a x y r", "a x\n y q"], "tag": "corpus-eolterm"},
+    {"grammar": "Model: ('k' | CB) 'r';\nComment: CL | CB;\nCL: /\\/\\/.*?$/;\nCB: '#' 'x';\n", "opts": {},
+     "inputs": ["#// c\n x r", "# x r", "k r // c"], "tag": "corpus-comment-shared"},
+    {"grammar": "Model: B 'q' | 'b';\nB: /[^;\\n]+/ 'x';\nComment: /\\/\\/.*?$/ | /\\/\\*(.|\\n)*?\\*\\//;\n", "opts": {},
+     "inputs": ["b//\n/**/", "b // c\n", "b/**/ x q"], "tag": "corpus-comment-model"},
+    {"grammar": "Model: (x+=X ';' | x+=X '.')#[','] ; X: 'x' | /\\d+/;\n", "opts": {},
+     "inputs": ["x ; , 1 .", "1 . , x ;", "x . , x ."], "tag": "corpus-unordered"},
 ]
 
 
@@ -125,7 +140,7 @@ def model_equiv_impl(m, t):
 
 def run(chk):
     chk.prove([])
-    n, per = (900, 5) if chk.thorough else (150, 4)
+    n, per = (700, 5) if chk.thorough else (100, 4)
     cases = gen_cases(chk, n, per)
     idx = [list(range(i, len(cases), core.NPROC)) for i in range(core.NPROC)]
     idx = [ix for ix in idx if ix]
@@ -135,11 +150,14 @@ def run(chk):
         for i, x in zip(ix, o):
             results[i] = (cases[i], x)
     defs, exprs, index = coq_defs_and_exprs(results)
-    vals, errs = core.coq_eval("C19", IMPORTS, exprs, defs=defs, shard=150)
+    gidx = [ci for ci, (case, res) in enumerate(results) if res.get("dump") is not None]
+    cls_exprs = ["show_bool (ctx_constant g%d)" % ci for ci in gidx]
+    vals, errs = core.coq_eval("C19", IMPORTS, exprs + cls_exprs, defs=defs, shard=150)
     disagreements, failures = [], []
     if errs:
         disagreements.append({"case": "coq evaluation", "model": errs[:2]})
-    mvals = dict(zip(index, vals))
+    mvals = dict(zip(index, vals[:len(exprs)]))
+    coq_cls = dict(zip(gidx, vals[len(exprs):]))
     for ci, (case, res) in enumerate(results):
         if res["grammar_error"]:
             chk.stat("grammar rejected: " + res["grammar_error"].split(":")[0])
@@ -148,7 +166,11 @@ def run(chk):
             continue
         d = res["dump"]
         cc, cdep = ctx_constant(d), context_dependent(d)
-        chk.stat("grammars: %s" % ("ctx_constant" if cc else ("context-dependent" if cdep else "comments, disjoint")))
+        if coq_cls.get(ci) != ("T" if cc else "F") or (cc and cdep):
+            disagreements.append({"case": {"grammar": case["grammar"]}, "impl": "classifier ctx_constant=%s context_dependent=%s" % (cc, cdep),
+                                  "model": "Coq ctx_constant = %s" % coq_cls.get(ci)})
+        chk.stat("grammars: %s" % ("ctx_constant" if cc else ("context-dependent" if cdep else (
+            "memoizable comment model" if memoizable_comment_model(d) else "other (terminal comment model / unordered group)"))))
         for ii, (text, run_) in enumerate(zip(case["inputs"], res["runs"])):
             if run_.get("timeout") or run_.get("unsupported"):
                 chk.stat("input skipped (timeout/unsupported)")
@@ -169,6 +191,9 @@ def run(chk):
                     disagreements.append({"case": cinfo, "impl": [t_off, t_on], "model": [mo, mn]})
                 if mo != mn:
                     chk.stat("model: memo changes outcome")
+                    if cc and not mo.startswith("A:"):
+                        # an instance of C19_memo_safe_partial evaluated on the model: cannot differ
+                        disagreements.append({"case": cinfo, "impl": [t_off, t_on], "model": [mo, mn, "theorem instance violated in the model"]})
             # glue: the textX-level outcome must be the Arpeggio-level one (acceptance and error position)
             for tt, mm in ((t_off, m_off), (t_on, m_on)):
                 if tt.startswith("P:") and not mm["ok"] and mm["err"] == "syntax":
@@ -183,7 +208,7 @@ def run(chk):
                 bad = "model_from_str differs: without memoization %r, with memoization %r" % (m_off, m_on)
             if bad:
                 chk.stat("impl: memo changes outcome")
-                tags = ["not_ctx_constant"] if cdep else []
+                tags = (["not_ctx_constant"] if cdep else []) + (["memoizable_comment_model"] if memoizable_comment_model(d) else [])
                 failures.append({"case": cinfo, "what": bad, "tags": tags, "impl": [t_off, t_on], "model": mv})
             if chk.cov["evaluations"] % 150 == 7:
                 chk.sample({"grammar": case["grammar"], "input": text, "memo_off": t_off[:120], "memo_on": t_on[:120]})
@@ -198,3 +223,22 @@ def run(chk):
                         "regex terminals: matched lengths supplied by Python's re for the concrete input (oracle table); theorems hold for every oracle",
                         "Arpeggio (dependency) is modelled, validated by this correspondence, not verified"]
     decide(chk, failures, disagreements)
+
+
+def replay(rep):
+    """./check C19 --replay out/C19/fail_N.json : re-run one recorded case on the implementation."""
+    case = rep.get("case") or {}
+    if "input" not in case:
+        print(json.dumps(rep, indent=1))
+        return 0
+    out = core.run_impl("c19", {"cases": [{"grammar": case["grammar"], "opts": case.get("opts", {}), "inputs": [case["input"]]}]})[0]
+    if out["grammar_error"]:
+        print("grammar:", out["grammar_error"])
+        return 1
+    r = out["runs"][0]
+    print("without memoization:", r.get("tree_off"), r.get("model_off"))
+    print("with memoization:   ", r.get("tree_on"), r.get("model_on"))
+    same = r.get("tree_off") == r.get("tree_on") and r.get("model_off") == r.get("model_on")
+    print("property C19 on this case:", "holds" if same else "VIOLATED",
+          "(known finding class)" if (context_dependent(out["dump"]) or memoizable_comment_model(out["dump"])) else "")
+    return 0 if same else 1
